@@ -68,6 +68,12 @@ namespace cs
         virtual std::size_t max_align()                = 0;
         bool                composable   = false;
         bool                has_tracker  = false;
+        int                 tracked_leaf = -1;    // has_tracker: -1 = every request passes the tracker, else only
+                                                  // requests served by this leaf do
+        virtual bool        move_assign_from(Comp&)
+        {
+            return false;
+        }
         bool                array_ok     = true;  // whether array requests make sense
         std::size_t         fixed_size   = 0;     // != 0: element type fixed by the composition (std_allocator)
         std::size_t         fixed_align  = 0;
@@ -119,9 +125,22 @@ namespace cs
         {
             return traits::max_alignment(a_);
         }
+        bool move_assign_from(Comp& other) override
+        {
+            return do_assign(other, std::is_move_assignable<A>{});
+        }
         A a_;
 
     private:
+        bool do_assign(Comp& other, std::true_type)
+        {
+            a_ = std::move(static_cast<RawComp&>(other).a_);
+            return true;
+        }
+        bool do_assign(Comp&, std::false_type)
+        {
+            return false;
+        }
         void* try_alloc(const Req& r, std::true_type)
         {
             return r.array ? ctraits::try_allocate_array(a_, r.count, r.size, r.align) :
